@@ -1178,8 +1178,10 @@ impl Gen {
             return Some(Op::Reconnect(self.connack(r, sp)));
         }
         if !r.d.pending.is_empty() {
-            // the event loop replays before anything else; the broker may talk meanwhile
-            if self.rng.chance(1, 8) {
+            // the event loop replays before anything else (unless a collision is parked: then
+            // only the broker can move things on); the broker may talk meanwhile
+            let blocked = r.d.st.collision().is_some();
+            if blocked || self.rng.chance(1, 8) {
                 let acks = self.acks(r, 1);
                 if !acks.is_empty() {
                     let b = self.sanitize_batch(r, acks);
